@@ -51,6 +51,10 @@ func (c *Codec) decodeQuery(queryString url.Values, msg protoreflect.Message) er
 	}
 
 	for key, values := range queryString {
+		if len(values) == 0 {
+			// a key without any value carries nothing to decode
+			continue
+		}
 		prop, err := propertyAtPath(root, key)
 		if err != nil {
 			return err
